@@ -2,6 +2,22 @@
 from engine.e1run import Worlds, function_obligations
 from engine.helpers import helper_obligations
 from engine.chain import chain_obligations
+from props import lemmas as LM
+
+LEMMAS = {
+    'C04': [(['onshell'], [('3+1 form of g', LM.L_3p1), ('inverse', LM.L_inverse), ('determinants', LM.L_dets),
+                           ('Riemann symmetries 4D', LM.L_riemann4), ('Riemann symmetries 3D', LM.L_riemann3),
+                           ('constraints / Einstein equation', LM.L_constraints)], {})],
+    'C05': [(['onshell'], [('covariant derivative', LM.L_covd), ('BSSNOK split', LM.L_bssn_split),
+                           ('Riemann symmetries 3D', LM.L_riemann3), ('conformal', LM.L_conformal)], {})],
+    'C06': [(['onshell'], [('constraints / Einstein equation', LM.L_constraints)], {})],
+    'C09': [(['fluid'], [('perfect fluid', LM.L_fluid)], {}),
+            (['freeT'], [('projections of a supplied T', LM.L_Tproj)], {})],
+    'C10': [(['onshell'], [('Weyl tensor', LM.L_weyl), ('electric/magnetic parts', LM.L_EB),
+                           ('quasi-Kinnersley triad', LM.L_tetrad_qk)], {}),
+            (['onshell_fluidtetrad'], [('fluid tetrad', LM.L_tetrad_fluid)], {'numeric': True})],
+    'C19': [(['onshell'], [('Eulerian kinematics', LM.L_kinematics)], {})],
+}
 
 FUNCS = {
     'C04': dict(
@@ -56,7 +72,7 @@ FUNCS = {
                'Weyl_Psi', 'Weyl_invariants'],
         helpers=['levicivita_down3', 'levicivita_down4', 'levicivita_symbol_down3', 'levicivita_symbol_down4',
                  's_to_st', 's_covd', 'tracefree3', 'norm3', 'norm4', 'vector_inner_product3',
-                 'vector_inner_product4'],
+                 'vector_inner_product4', 'null_vector_base'],
         scens=['onshell', 'onshell_fluidtetrad'], thorough_scens=['onshell', 'onshell_fluidtetrad', 'onshell_comp'],
         chain=['st_Weyl_down4', 'eweyl_n_down3', 'bweyl_n_down3', 'eweyl_u_down4', 'bweyl_u_down4'],
         chain_scens=['onshell']),
@@ -85,3 +101,8 @@ def run_tensor(R, pid):
         helper_obligations(R, W, s, only=set(cfg.get('helpers', [])), npoints=npts)
     for s in cfg.get('chain_scens', scens):
         chain_obligations(R, W, s, cfg.get('chain', []), 'property', npoints=npts)
+    for lscens, lems, relkw in LEMMAS.get(pid, []):
+        if relkw.get('numeric'):
+            LM.numeric_lemma_obligations(R, R.seed, lems, lscens)
+        else:
+            LM.lemma_obligations(R, W, lems, lscens, npoints=npts, relkw=relkw)
